@@ -156,6 +156,9 @@ func scan(root, mod, rel string) {
 	for _, n := range names {
 		if !done[n] {
 			fmt.Printf("no   %-40s %v\n", n, reason[n])
+			if f := T.Translate(n + "#prefix"); f.Err == nil && f.Prefix > 1 { // a fragment of it?
+				fmt.Printf("     %-40s #prefix: %d of %d statements, hands on %v\n", "", f.Prefix, len(f.Decl.Body.List), f.Vars)
+			}
 		}
 	}
 }
